@@ -146,6 +146,20 @@ fn is_log_expr(e: &syn::Expr) -> bool {
 
 struct TracingPass {
     edits: Vec<Edit>,
+    /// locals bound to a tracing span (`let span = tracing::info_span!(..)`): statements that only use them go too
+    span_vars: Vec<String>,
+}
+fn root_is_var(e: &syn::Expr, vars: &[String]) -> bool {
+    let root = chain_root(e);
+    if std::ptr::eq(root, e) {
+        return false;
+    }
+    if let syn::Expr::Path(p) = root {
+        if let Some(id) = p.path.get_ident() {
+            return vars.iter().any(|v| id == v);
+        }
+    }
+    false
 }
 impl<'ast> Visit<'ast> for TracingPass {
     fn visit_stmt(&mut self, s: &'ast syn::Stmt) {
@@ -160,9 +174,20 @@ impl<'ast> Visit<'ast> for TracingPass {
                 self.edits.push(Edit { start: r.start, end, text: String::new(), rule: "N2" });
                 return;
             }
+            syn::Stmt::Expr(e, semi) if root_is_var(e, &self.span_vars) => {
+                let end = semi.map(|t| range(t.span()).end).unwrap_or(r.end);
+                self.edits.push(Edit { start: r.start, end, text: String::new(), rule: "N2" });
+                return;
+            }
             syn::Stmt::Local(l) => {
                 if let Some(init) = &l.init {
-                    if is_log_expr(&init.expr) {
+                    let is_macro_init = matches!(chain_root(&init.expr), syn::Expr::Macro(m) if is_tracing_macro(&m.mac));
+                    if is_log_expr(&init.expr) || is_macro_init || root_is_var(&init.expr, &self.span_vars) {
+                        if is_macro_init {
+                            if let syn::Pat::Ident(pi) = &l.pat {
+                                self.span_vars.push(pi.ident.to_string());
+                            }
+                        }
                         self.edits.push(Edit { start: r.start, end: r.end, text: String::new(), rule: "N2" });
                         return;
                     }
@@ -628,7 +653,7 @@ pub fn normalize(
     // N2b
     if !skip("N2") {
         let f = parse(&text, "N2a")?;
-        let mut p = TracingPass { edits: vec![] };
+        let mut p = TracingPass { edits: vec![], span_vars: vec![] };
         p.visit_file(&f);
         bump(fired, "N2.tracing", p.edits.len());
         text = apply_edits(&text, p.edits);
@@ -824,7 +849,7 @@ pub fn splice(
     let f = parse(text, "normalisation")?;
     let mut ff = FnFinder { fns: vec![] };
     ff.visit_file(&f);
-    let is_fn = matches!(spec.kind.as_str(), "fn" | "method");
+    let is_fn = matches!(spec.kind.as_str(), "fn" | "method" | "trait_fn");
     if !is_fn || ff.fns.is_empty() {
         return Ok(Spliced { text: text.to_string(), obligations: vec![], fn_name: None, is_fn: false });
     }
